@@ -37,7 +37,8 @@ func (t *topLevelMethodStrategy) isMismatchVisibility(
 		return true
 	}
 
-	return m.ctx.IsDefineStatic != methodT.IsStatic &&
+	// (what an extended module defines answers the class: it counts as static)
+	return m.ctx.IsDefineStatic != (methodT.IsStatic || methodT.IsExtend) &&
 		m.ctx.GetMethod() != "" &&
 		m.ctx.GetMethod() != "new" &&
 		methodT.GetFrame() != "Builtin"
